@@ -259,6 +259,7 @@ var reqMethods = []string{"GET", "POST", "PUT", "DELETE", "PATCH", "OPTIONS", "O
 func genCase(t *rapid.T) *Case {
 	c := &Case{}
 	c.G.TS = gen.Pick(t, []int{rt.TSNone, rt.TSIgnore, rt.TSRedirect}, "globalTS")
+	c.G.OneTxn = gen.Chance(t, 1, 4, "onetxn")
 	c.G.NoMethod = rapid.Bool().Draw(t, "noMethod")
 	c.G.AutoOptions = rapid.Bool().Draw(t, "autoOptions")
 	c.G.NoMethodOff = !c.G.NoMethod && gen.Chance(t, 1, 3, "nomethodoff")
